@@ -49,6 +49,7 @@ pub fn run(obligation: &str) -> i32 {
     if obligation.starts_with("C02.type_table") || obligation.starts_with("C02.string_type") || obligation.starts_with("C02.qualified_type") { gen_type_table(&mut rep); return rep.finish("GEN_type_table"); }
     if obligation.starts_with("C07.value_to_tokens") { gen_values(&mut rep); return rep.finish("GEN_values"); }
     if obligation.starts_with("C14.format_identifier_annotation") { gen_identifier(&mut rep); return rep.finish("GEN_emission"); }
+    if obligation.starts_with("C02.type_to_tokens") { gen_value_types(&mut rep); return rep.finish("GEN_type_table"); }
     if obligation.starts_with("C03.generate_any") || obligation.starts_with("C03.any_template") { gen_any(&mut rep); return rep.finish("GEN_blocks"); }
     if obligation.starts_with("C02.generate_type") || obligation.starts_with("C02.generate_tld") { gen_dispatch(&mut rep); return rep.finish("GEN_dispatch"); }
     if obligation.starts_with("C02.format_sequence_or_set_members") || obligation.starts_with("C02.format_choice_options") { gen_member_lists(&mut rep); return rep.finish("GEN_members"); }
@@ -620,6 +621,33 @@ fn gen_identifier(rep: &mut Rep) {
         let got = hook_identifier_annotation(name, comments, &ty);
         rep.check("C14.format_identifier_annotation.a_synthetic_item_is_identified_by_its_type", nows(&got) == "identifier=\"BOOLEAN\"", || format!("name={name} comments={comments:?} BOOLEAN -> {got}"));
     }
+}
+
+/// type_to_tokens on the real crate: every kind under contract, collections nested up to depth 3 in every SEQUENCE OF / SET OF combination
+fn gen_value_types(rep: &mut Rep) {
+    use rasn_compiler::verif_hooks::hook_type_to_tokens;
+    let nows = |s: &str| s.chars().filter(|c| !c.is_whitespace()).collect::<String>();
+    let leaves: Vec<(ASN1Type, Option<&str>, &str)> = vec![
+        (ASN1Type::Null, Some("()"), "NULL"), (ASN1Type::Boolean(Boolean { constraints: vec![] }), Some("bool"), "BOOLEAN"),
+        (ASN1Type::Integer(Integer { constraints: vec![], distinguished_values: None }), Some("Integer"), "INTEGER"),
+        (ASN1Type::BitString(BitString { constraints: vec![], distinguished_values: None }), Some("BitString"), "BIT STRING"), (ASN1Type::OctetString(OctetString { constraints: vec![] }), Some("OctetString"), "OCTET STRING"),
+        (ASN1Type::CharacterString(CharacterString { constraints: vec![], ty: CharacterStringType::IA5String }), Some("Ia5String"), "IA5String"),
+        (ASN1Type::CharacterString(CharacterString { constraints: vec![], ty: CharacterStringType::VideotexString }), None, "VideotexString"),
+        (ASN1Type::ElsewhereDeclaredType(DeclarationElsewhere { parent: None, module: None, identifier: "Other".into(), constraints: vec![] }), Some("Other"), "Other"),
+        (ASN1Type::GeneralizedTime(GeneralizedTime { constraints: vec![] }), Some("GeneralizedTime"), "GeneralizedTime"), (ASN1Type::UTCTime(UTCTime { constraints: vec![] }), Some("UtcTime"), "UTCTime"),
+        (ASN1Type::Any, Some("Any"), "ANY"),
+    ];
+    for (leaf, want, text) in &leaves { for depth in 0..=3usize { for mask in 0..(1usize << depth) {
+        let mut ty = leaf.clone(); let mut w = want.map(|s| s.to_string()); let mut t = text.to_string();
+        for k in 0..depth { let is_set = mask >> k & 1 == 1;
+            let of = SequenceOrSetOf { constraints: vec![], element_tag: None, element_type: Box::new(ty), is_recursive: false };
+            ty = if is_set { ASN1Type::SetOf(of) } else { ASN1Type::SequenceOf(of) };
+            w = w.map(|x| format!("{}<{x}>", if is_set { "SetOf" } else { "SequenceOf" })); t = format!("{} OF {t}", if is_set { "SET" } else { "SEQUENCE" }); }
+        let got = hook_type_to_tokens(&ty);
+        let d = || format!("{t} -> {got:?}");
+        match &w { Some(x) => rep.check("C02.type_to_tokens.the_rust_type_of_the_asn1_type_collections_element_by_element_SetOf_for_SET_OF", matches!(&got, Ok(g) if nows(g) == *x), d),
+            None => rep.check("C02.type_to_tokens.fails_when_the_string_type_is_not_supported", got.is_err(), d) }
+    } } }
 }
 
 /// format_default_methods on the real crate: lists of 0..=4 components, each required / OPTIONAL / DEFAULT, of type BOOLEAN, INTEGER,
